@@ -122,6 +122,48 @@ def app_send(w, mon, sender, data, retry="none", tag=None, api="send"):
     return None
 
 
+def add_bystander(w, mon):
+    """a SECOND client of the same server (w must have n_clients >= 2) keeps exchanging traffic of every kind with it over a
+    perfect link - small unretried messages both ways every tick, guaranteed ones every 8th, fragmented guaranteed ones every
+    16th - while every fault, replay and oracle stays on client 0.  State that ought to be per connection but is shared
+    (a class-level table, a mutable default, a module cache keyed by a number only) shows as damage to client 0's conversation."""
+    import struct as _st
+    ce = w.clients[1]
+    k = [0]
+    orig = w.tick
+    NONE = RETRY["none"]
+
+    def tick(dt=None):
+        k[0] += 1
+        n = k[0]
+        sc = w.ctxt.connections.get(ce.addr)
+        try:
+            if ce.client.connected() and sc is not None and sc.status == ConnectionStatus.CONNECTED:
+                small = b"by" + _st.pack(">I", n)
+                mon.note_sent("c", b"c" + small)
+                ce.client.send(b"c" + small, retry=NONE.value)
+                mon.note_sent("s", b"s" + small)
+                sc.send(b"s" + small, retry=NONE)
+                if n % 8 == 3:
+                    g = b"byG" + _st.pack(">I", n) * 10
+                    mon.note_sent("c", b"c" + g)
+                    ce.client.send_guaranteed(b"c" + g)
+                    mon.note_sent("s", b"s" + g)
+                    sc.send_guaranteed(b"s" + g)
+                if n % 16 == 5:
+                    f = payload(900 + n % 90, 2500, n)
+                    mon.note_sent("c", b"c" + f)
+                    ce.client.send_guaranteed(b"c" + f)
+                    mon.note_sent("s", b"s" + f)
+                    sc.send_guaranteed(b"s" + f)
+        except Exception as e:
+            w.exceptions.append(("bystander.send", repr(e)))
+        orig(dt)
+    w.tick = tick
+    addr0 = w.clients[0].addr
+    w.fate_filter = lambda w_, d: d.client_addr == addr0
+
+
 def quiescent(w):
     """nothing in flight, nothing queued, nothing awaiting ack/retry on either end"""
     if w.net:
